@@ -77,7 +77,9 @@ def yaml_text(rnd, elems, logging, extra):
     for cls, label, kwargs in elems:
         items = ", ".join("%s: %s" % (k, v) for k, v in kwargs.items())
         if cls in ("VSvcCtrl", "VSvcDeco", "VSvcTrioDeco", "VSvcThread", "VSvcPool", "VSvcEmpty", "VSvcWaiter", "VDeco", "VPool") and rnd.random() < 0.35:
-            lines.append("  - {__type__: vplug.%s%s}" % (cls, (", " + items) if items else ""))
+            # the class named directly, through a namespace class, or by an alternative constructor
+            name = rnd.choice(["vplug.%s", "vplug.%s", "vplug.Site.%s", "vplug.%s.build"]) % cls
+            lines.append("  - {__type__: %s%s}" % (name, (", " + items) if items else ""))
         elif items:
             lines.append("  - !%s {%s}" % (cls, items))
         else:
@@ -234,7 +236,13 @@ def execute(case, result):
         return all(beats.get(lb, -1) >= (1 if case.get("many") else 4) for lb in labels)
 
     valid = case["kind"] == "valid"
-    run = proc.run_daemon(None if case["missing_file"] else case["text"], case["suffix"], ready,
+    # a Python configuration may be called like a module it imports (cobald.py, vplug.py): it is not that module
+    config_name = None
+    if case["format"] == "python" and case["suffix"] == ".py" and not case.get("compiled"):
+        config_name = ["config", "cobald", "vplug", "config", "trio"][len(case["text"]) % 5]
+        if config_name != "config":
+            result.count("python_configs_named_like_a_module_they_import")
+    run = proc.run_daemon(None if case["missing_file"] else case["text"], case["suffix"], ready, config_name=config_name,
                           signal_after=case["signal_after"] if valid else None, timeout=25.0, inject=case.get("inject"), compiled=case.get("compiled", False),
                           wait_ready=20.0 if case.get("many") else 8.0)
     problems = []
@@ -330,7 +338,7 @@ def finish(total, tier):
     need = ["daemons_valid", "daemons_invalid", "daemons_failing", "configs_yaml", "configs_python", "services_checked_trio",
             "services_checked_asyncio", "services_checked_threading", "failing_services_after_start", "valid_with_logging_section", "falsy_services_checked", "private_waiter_services_checked", "services_in_large_injected_configs",
             "failing_services_with_base_exception_threading", "defect_unknown_extension_with_byte_compiled_config",
-            "defect_broken_element", "defect_pipeline_not_a_list", "large_configs_of_mostly_trio_services"]
+            "defect_broken_element", "defect_pipeline_not_a_list", "python_configs_named_like_a_module_they_import", "large_configs_of_mostly_trio_services"]
     for name in need:
         if not total.counters.get(name) and not total.violations:
             total.inconc("monitor never observed: " + name)
